@@ -1,3 +1,80 @@
+(* C02 entry points.
+     1, 101-103  the shared action-skeleton entry (real cycles; law 102 = no node overcommitted)
+     2           bind admission: the real SchedulerCache.AddBindTask under concurrent callers,
+                 replayed in the order the cache serialised them
+     3           the agent scheduler's AddBindTask, same replay
+     112         law: after all bind calls, per node, the summed requests of the held tasks
+                 (recomputed from the pod specs) stay within the allocatable amount
+     113         law: the hypotheses of cycle_no_overcommit hold of the generated cycle *)
+From stdpp Require Import gmap.
 From Coq Require Import ZArith List.
-From V Require Import Sched.CycleEntry.
-Definition entry := cycle_entry.
+From V Require Import Base.Codec Base.Res Base.ResCodec Sched.LedgerModel Sched.StmtModel Sched.LedgerCodec
+                      Sched.GangModel Sched.CycleModel Sched.CycleCodec Sched.CycleLaws Sched.CycleEntry
+                      Sched.NodeCapCheck C02.BindModel.
+Import ListNotations.
+Open Scope Z_scope.
+
+Record bind_case := mkBindCase {
+  bc_eps : Z; bc_nodes : list node_spec; bc_jobs : list job_spec; bc_tasks : list task_spec;
+  bc_workers : Z; bc_exact : bool; bc_calls : list bind_req }.
+
+Definition dBindReq : dec bind_req :=
+  let* j := dPos in let* t := dPos in let* n := dPos in ret (mkBind j t n false).
+
+Definition dBindCase : dec bind_case :=
+  let* e := dZ in let* ns := dList dNodeSpec in let* js := dList dJobSpec in let* ts := dList dTaskSpec in
+  let* g := dZ in let* x := dBool in let* cs := dList dBindReq in ret (mkBindCase e ns js ts g x cs).
+
+Definition cache_of (b : bind_case) : cache :=
+  let s := build (bc_eps b) (bc_nodes b) (bc_jobs b) (bc_tasks b) in mkCache (heap s) (jobs s) (nodes s).
+
+Definition eBindRes (exact : bool) (r : bind_res) : list Z :=
+  match r with
+  | BOk => [0]
+  | _ => if negb exact then [1] else
+    match r with
+    | BOk => [0] | BNoJob => [1] | BNoTask => [2] | BNoNode => [3] | BDecision => [4]
+    | BRefused ErrDifferentNode => [5] | BRefused ErrAlreadyOnNode => [6] | BRefused ErrInsufficient => [7]
+    end
+  end.
+
+Definition run_bind (b : bind_case) : list Z :=
+  let c := cache_of b in
+  let c' := bind_state (bc_eps b) c (bc_calls b) in
+  eList (eBindRes (bc_exact b)) (bind_results (bc_eps b) c (bc_calls b)) ++ [-110] ++
+  eList (fun kv => eTaskBrief (snd kv)) (sort_kv (map_to_list (c_heap c'))) ++ [-111] ++
+  eList (fun kv => eJob (snd kv)) (sort_kv (map_to_list (c_jobs c'))) ++ [-112] ++
+  eList (fun kv => eNode (snd kv)) (sort_kv (map_to_list (c_nodes c'))).
+
+(* agent scheduler: the request carries the worker's own task object (here: the spec's task) *)
+Definition run_agent (b : bind_case) : list Z :=
+  let c := cache_of b in
+  let reqs := omap (fun r => match c_heap c !! b_task r with Some t => Some (t, b_node r) | None => None end) (bc_calls b) in
+  let step (acc : gmap positive node * list Z) (r : task * positive) :=
+    let '(ns, out) := acc in
+    let '(ns', o) := agent_add_bind_task (bc_eps b) ns (fst r) (snd r) in (ns', out ++ eBindRes (bc_exact b) o) in
+  let '(ns', out) := fold_left step reqs (c_nodes c, []) in
+  Z.of_nat (length reqs) :: out ++ [-112] ++ eList (fun kv => eNode (snd kv)) (sort_kv (map_to_list ns')).
+
+(* ---- law 112 ---- *)
+Definition law_bind (b : bind_case) (held : list (positive * list positive)) : bool :=
+  let ts := map (task_of_spec (bc_eps b)) (bc_tasks b) in
+  forallb (fun n =>
+    if negb (ns_has n) then true else
+    let alloc := mk_alloc (ns_cpu n) (ns_mem n) (ns_pods n) (ns_gpu n) in
+    let initially := filter (fun t => bool_decide (t_node t = Some (ns_id n)) && on_node_status (t_status t)) ts in
+    let now_ids := flat_map snd (filter (fun h => bool_decide (fst h = ns_id n)) held) in
+    implb (sum_le initially alloc) (sum_le (filter (fun t => bool_decide (t_id t ∈ now_ids)) ts) alloc))
+    (bc_nodes b).
+
+Definition dBindLaw : dec (bind_case * list (positive * list positive)) :=
+  let* b := dBindCase in let* h := dList (dPair dPos (dList dPos)) in ret (b, h).
+
+Definition entry (sel : Z) (toks : list Z) : list Z :=
+  match sel with
+  | 2 => match run_dec dBindCase toks with Some b => run_bind b | None => bad_input end
+  | 3 => match run_dec dBindCase toks with Some b => run_agent b | None => bad_input end
+  | 112 => match run_dec dBindLaw toks with Some (b, h) => eBool (law_bind b h) | None => bad_input end
+  | 113 => match run_dec dLawIn toks with Some (c, _, _) => eBool (world_ok_b (cc_eps c) (world_of c)) | None => bad_input end
+  | _ => cycle_entry sel toks
+  end.
